@@ -169,6 +169,21 @@ func init() {
 				}
 				mp = append(mp, poly)
 			}
+			if n%3 == 0 { // land with a lake and an island in the lake (a later member inside a hole of an earlier one), either order
+				x0, y0 := 2*c.rng.Intn(3), 2*c.rng.Intn(3)
+				box := func(m, w int) [][2]int {
+					return [][2]int{{x0 + m, y0 + m}, {x0 + m + w, y0 + m}, {x0 + m + w, y0 + m + w}, {x0 + m, y0 + m + w}, {x0 + m, y0 + m}}
+				}
+				land := [][][2]int{box(0, 20), box(4, 12)}
+				island := [][][2]int{box(8, 4)}
+				if c.rng.Intn(2) == 0 {
+					island = append(island, box(9, 2)) // with a pond of its own
+				}
+				mp = [][][][2]int{land, island}
+				if c.rng.Intn(2) == 0 {
+					mp = [][][][2]int{island, land}
+				}
+			}
 			c09Off = c09Offsets[c.rng.Intn(len(c09Offsets))]
 			c09Run(c, "mpoly", mp, q)
 			c09Run(c, "poly", mp[:1], q)
